@@ -1,125 +1,9 @@
-// C11: LC_Linear_Graph — node and edge records interleaved in one array, built
-// in two parallel passes (constructNodesFrom / constructEdgesFrom).
-#include "c11_ptr.h"
+// C11: linear family, representative subset of the template matrix (quick + thorough)
+#include "c11_fam_linear.h"
 
 namespace c11 {
 
-static const char* LIN = "LC_Linear_Graph";
-
-template <class G>
-void loadLinear(Ctx& c, G& g) {
-  if (c.rng.below(2)) {
-    gg::readGraph(g, c.file());
-  } else {
-    gg::FileGraph f;
-    loadFileGraph(c, f, c.file(), c.rng.below(2), c.esz);
-    gg::readGraph(g, f);
-  }
-  ++c.builds;
-  c.parallelBuilds += c.threads > 1;
-}
-
-template <class G>
-void opLinRead(Ctx& c) {
-  G g;
-  loadLinear(c, g);
-  verifyPtr<G>(c, g, c.X, true, "read");
-}
-
-template <class G>
-void opLinSortData(Ctx& c) {
-  using E = typename G::edge_data_type;
-  if (c.X.numNodes == 0) { // nothing to sort; the empty graph belongs to the "read" operation
-    c.skipped = true;
-    return;
-  }
-  G g;
-  loadLinear(c, g);
-  for (auto n : g)
-    g.sortEdgesByEdgeData(n, std::less<E>());
-  Indexer<G> ix;
-  ix.build(g, c.X.numNodes + 8);
-  Obs o;
-  observeOut(g, ix, o, galois::MethodFlag::UNPROTECTED);
-  if (!checkMultiset(c, o, c.X, "sorted"))
-    return;
-  checkSortedBy(c, o, c.less, "sorted");
-}
-
-// sortEdges with a user comparator over the edge records: by destination handle
-template <class G>
-void opLinSortCustom(Ctx& c) {
-  if (c.X.numNodes == 0) { // nothing to sort; the empty graph belongs to the "read" operation
-    c.skipped = true;
-    return;
-  }
-  G g;
-  loadLinear(c, g);
-  for (auto n : g)
-    g.sortEdges(n, [](const auto& a, const auto& b) { return a.dst < b.dst; });
-  Indexer<G> ix;
-  ix.build(g, c.X.numNodes + 8);
-  Obs o;
-  observeOut(g, ix, o, galois::MethodFlag::UNPROTECTED);
-  if (!checkMultiset(c, o, c.X, "sorted"))
-    return;
-  // sorted with respect to the comparator that was given (handle order)
-  for (size_t i = 0; i < ix.nodes.size(); ++i) {
-    auto n = ix.nodes[i];
-    auto b = g.edge_begin(n, galois::MethodFlag::UNPROTECTED), e = g.edge_end(n, galois::MethodFlag::UNPROTECTED);
-    if (b == e)
-      continue;
-    bool multi = false;
-    for (auto it = b + 1; it != e; ++it) {
-      multi = true;
-      if (g.getEdgeDst(it) < g.getEdgeDst(it - 1)) {
-        c.fail("sorted-not-sorted", J().kv("node", i).kv("position", (uint64_t)(it - b)).str());
-        return;
-      }
-    }
-    c.sortedLists += multi;
-  }
-}
-
-enum LinOps : unsigned { L_READ = 1, L_SORTDATA = 2, L_SORTCUSTOM = 4, L_ALL = 7 };
-
-template <class G>
-void regLin(const std::string& cfg, unsigned ops) {
-  using E = typename G::edge_data_type;
-  auto& R = registry();
-  if (ops & L_READ)
-    R.push_back(mkEntry<E>(LIN, cfg, "read", &opLinRead<G>, 0, 3));
-  if (ops & L_SORTCUSTOM)
-    R.push_back(mkEntry<E>(LIN, cfg, "sortEdges", &opLinSortCustom<G>));
-  if constexpr (!std::is_void_v<E>)
-    if (ops & L_SORTDATA)
-      R.push_back(mkEntry<E>(LIN, cfg, "sortEdgesByEdgeData", &opLinSortData<G>));
-}
-
-// LC_Linear_Graph<NodeTy, EdgeTy, HasNoLockable, UseNumaAlloc, HasOutOfLineLockable, HasId>
-template <class E, bool NL = false, bool NU = false, bool OOL = false, bool ID = false, class N = uint32_t>
-using Lin = gg::LC_Linear_Graph<N, E, NL, NU, OOL, ID>;
-
-template <class E>
-void regLinFull() {
-  regLin<Lin<E>>("lock", L_ALL);
-  regLin<Lin<E, true>>("nolock", L_ALL);
-  regLin<Lin<E, false, true>>("lock+numa", L_ALL);
-  regLin<Lin<E, false, false, true, true>>("ool+id", L_READ);
-  regLin<Lin<E, true, true>>("nolock+numa", L_READ);
-  regLin<Lin<E, false, true, true, true>>("ool+id+numa", L_READ);
-  regLin<Lin<E, false, false, false, true>>("lock+id", L_READ);
-  regLin<Lin<E, true, false, false, false, void>>("nolock+voidnode", L_READ);
-}
-
 void registerLinear() {
-#if 0 // full matrix: see c11_x_*.cpp
-  regLinFull<void>();
-  regLinFull<uint32_t>();
-  regLinFull<uint64_t>();
-  regLinFull<float>();
-  regLinFull<E12>();
-#else
   regLin<Lin<void>>("lock", L_ALL);
   regLin<Lin<uint32_t>>("lock", L_ALL);
   regLin<Lin<uint64_t, true, true>>("nolock+numa", L_READ | L_SORTDATA);
@@ -128,7 +12,6 @@ void registerLinear() {
   regLin<Lin<float, false, true>>("lock+numa", L_READ);
   regLin<Lin<void, true, false, false, false, void>>("nolock+voidnode", L_READ);
   regLin<Lin<uint32_t, false, true, true, true>>("ool+id+numa", L_READ);
-#endif
 }
 
 } // namespace c11
